@@ -1,6 +1,6 @@
-(* Printing theorem: why each extra clause of wf_print is needed.  Every example is a printed
-   pattern that the parser MODEL (Engine/Parse.v) rejects or reads with another language; all by
-   computation. *)
+(* Printing theorem: why each extra clause of wf_print is needed.  Every counterexample is a
+   printed pattern that the parser MODEL (Engine/Parse.v) rejects or reads with another language;
+   all by computation.  (Item 3 is a positive example: ranges ending in a raw & or ~ parse.) *)
 From Grex Require Import Base.Str Model.Config Model.Cluster Model.Dfa Model.Expr Model.Print.
 From Grex Require Import Engine.Syntax Engine.Parse Engine.Sem.
 From Grex Require Import Proofs.Lang Proofs.PrintParseDefs.
@@ -35,15 +35,37 @@ Proof. vm_compute. reflexivity. Qed.
 Example cex_singleton_class : parse nows (regexp_str isd0 c0 (ECC [97])) = None.
 Proof. vm_compute. reflexivity. Qed.
 
-(* 3. a printed range ending in a raw `&` or `~`: `[\$-&]`, `[|-~]` (the parser model keeps
-      && and ~~ out of the fragment by refusing these two as the upper end of a range) *)
-Example cex_amp_range_str : regexp_str isd0 c0 (ECC [36; 37; 38]) = [94; 91; 92; 36; 45; 38; 93; 36].
+(* 3. (positive) a printed range ending in a raw `&` or `~`: `[\$-&]`, `[|-~]`.  The parser model
+      accepts a raw & or ~ as the upper end of a range unless the same character follows
+      (`&&`, `~~`: set operations, outside the fragment); class members are distinct and sorted,
+      so what follows such a range is `]` or a larger member *)
+Example ok_amp_range_str : regexp_str isd0 c0 (ECC [36; 37; 38]) = [94; 91; 92; 36; 45; 38; 93; 36].
 Proof. vm_compute. reflexivity. Qed.
-Example cex_amp_range : parse nows (regexp_str isd0 c0 (ECC [36; 37; 38])) = None.
+Example ok_amp_range :
+  parse nows (regexp_str isd0 c0 (ECC [36; 37; 38]))
+  = Some (mkF false false, top_rast c0 (ECC [36; 37; 38])).
 Proof. vm_compute. reflexivity. Qed.
-Example cex_tilde_range_str : regexp_str isd0 c0 (ECC [124; 125; 126]) = [94; 91; 124; 45; 126; 93; 36].
+Example ok_amp_range_ast :
+  top_rast c0 (ECC [36; 37; 38]) = RCat (RCat RStart (RBracket [(36, 38)])) REnd.
 Proof. vm_compute. reflexivity. Qed.
-Example cex_tilde_range : parse nows (regexp_str isd0 c0 (ECC [124; 125; 126])) = None.
+Example ok_tilde_range_str : regexp_str isd0 c0 (ECC [124; 125; 126]) = [94; 91; 124; 45; 126; 93; 36].
+Proof. vm_compute. reflexivity. Qed.
+Example ok_tilde_range :
+  parse nows (regexp_str isd0 c0 (ECC [124; 125; 126]))
+  = Some (mkF false false, top_rast c0 (ECC [124; 125; 126])).
+Proof. vm_compute. reflexivity. Qed.
+(* a range ending in & followed by further members: `[\$-&'\(-\*]`, and & as a single member
+   followed by a range *)
+Example ok_amp_range_more :
+  parse nows (regexp_str isd0 c0 (ECC [36; 37; 38; 39; 40; 41; 42; 44]))
+  = Some (mkF false false, top_rast c0 (ECC [36; 37; 38; 39; 40; 41; 42; 44])).
+Proof. vm_compute. reflexivity. Qed.
+Example ok_amp_range_then_single :
+  parse nows (regexp_str isd0 c0 (ECC [36; 37; 38; 40; 126; 200]))
+  = Some (mkF false false, top_rast c0 (ECC [36; 37; 38; 40; 126; 200])).
+Proof. vm_compute. reflexivity. Qed.
+(* the doubled characters are what the parser model refuses: `[a-&&]` *)
+Example cex_amp_amp : parse nows [91; 97; 45; 38; 38; 93] = None.
 Proof. vm_compute. reflexivity. Qed.
 
 (* 4. a class whose run of consecutive positions straddles the surrogate gap prints the range
